@@ -448,6 +448,40 @@ def _match(pattern: dict, sig: dict) -> bool:
     return True
 
 
+# the documented positional order of the public functions (pinned at the baseline commit): a caller may pass any leading part of it
+# positionally, so every such call form is a way of making the same request
+PINNED_ORDER = {
+    "discover_network": ["data", "method", "information", "max_lag", "alpha_forward", "alpha_backward", "metric", "bandwidth", "k_means", "n_shuffles", "n_jobs"],
+    "shuffle_test": ["X", "Y", "Z", "observed_cmi", "alpha", "n_shuffles", "rng", "information", "metric", "k_means", "bandwidth"],
+    "conditional_mutual_information": ["X", "Y", "Z", "method", "metric", "k", "bandwidth", "kernel"],
+    "kde_conditional_mutual_information": ["X", "Y", "Z", "bandwidth", "kernel"],
+    "knn_conditional_mutual_information": ["X", "Y", "Z", "metric", "k"],
+    "geometric_knn_conditional_mutual_information": ["X", "Y", "Z", "metric", "k"],
+    "kde_mutual_information": ["X", "Y", "bandwidth", "kernel"],
+    "knn_mutual_information": ["X", "Y", "metric", "k"],
+    "geometric_knn_mutual_information": ["X", "Y", "metric", "k"],
+    "kde_entropy": ["X", "bandwidth", "kernel"],
+    "geometric_knn_entropy": ["X", "Xdist", "k"],
+    "logisic_dynamics": ["n", "p", "t", "r", "sigma", "seed"],
+    "linear_stochastic_gaussian_process": ["rho", "n", "T", "p", "epsilon", "seed", "G"],
+    "poisson_coupled_oscillators": ["n", "T", "p", "lambda_base", "coupling_strength", "seed", "G"],
+    "pcmci_to_networkx": ["results", "binarize", "p_value"],
+    "network_to_dataframe": ["G", "method", "information", "alpha_forward", "alpha_backward", "metric", "bandwidth", "k_means", "n_shuffles", "max_lag"],
+    "subnetwork": ["G", "lag"],
+}
+
+
+def call_form(fn, name, form, **kw):
+    """Call `fn` with the request `kw` in one of its documented call forms: 0 all keywords, 1 the longest possible leading part
+    positional, 2 about half of that leading part positional (the rest by keyword)."""
+    order = PINNED_ORDER[name]
+    lead = 0
+    while lead < len(order) and order[lead] in kw:
+        lead += 1
+    cut = [0, lead, (lead + 1) // 2][form % 3]
+    return fn(*[kw[k] for k in order[:cut]], **{k: v for k, v in kw.items() if k not in order[:cut]})
+
+
 class EntryPoints:
     """The public ways of reaching one function (defining module and every package-level re-export), used in turn:
     a wrapper put around a re-export must behave like the function it re-exports."""
